@@ -15,6 +15,14 @@ template <> const char* tn<float>() { return "float"; }
 template <> const char* tn<double>() { return "double"; }
 template <> const char* tn<long double>() { return "longdouble"; }
 
+// value identity (long double carries padding bytes, so memcmp is not usable)
+template <typename T> static bool same_val(const T& a, const T& b) { return a == b || (a != a && b != b); }
+template <typename M> static bool same_mat(const M& A, const M& B)
+{
+    if (A.rows() != B.rows() || A.cols() != B.cols()) return false;
+    for (Eigen::Index j = 0; j < A.cols(); j++) for (Eigen::Index i = 0; i < A.rows(); i++) if (!same_val(A(i, j), B(i, j))) return false;
+    return true;
+}
 struct Ctx
 {
     Local& L;
@@ -26,7 +34,7 @@ struct Ctx
         if (!(err <= bound))
             L.violate(key + ":" + clause, replay, std::string(clause) + " err=" + gnum(err) + " bound=" + gnum(bound));
     }
-    void fail(const char* clause, const std::string& d) { L.violate(key + ":" + clause, replay, d); }
+    void fail(const std::string& clause, const std::string& d) { L.violate(key + ":" + clause, replay, d); }
 };
 
 template <typename T>
@@ -115,6 +123,42 @@ struct QR
                 qr.apply_YQt(W);
                 c.check("apply_YQt(mat)", maxabs(toL(W) - Yl.transpose() * Ql.transpose()), by);
             }
+            // the output argument of matrix_QtHQ may arrive in any state: already n x n and full of other numbers (a reused
+            // work matrix), or of another size - the result must be the same matrix bit for bit
+            for (int pre = 0; pre < 2; pre++)
+            {
+                Mat D2 = Mat::Constant(pre == 0 ? n : n + 1, pre == 0 ? n : n + 1, T(7.25));
+                qr.matrix_QtHQ(D2);
+                if (!same_mat(D2, D))
+                    c.fail(pre == 0 ? "QtHQ-dest-prefilled" : "QtHQ-dest-other-size", "matrix_QtHQ(dest) depends on what dest held before the call");
+            }
+            // every matrix apply_* on a view into a larger matrix (outer stride != rows): same numbers as on a plain matrix,
+            // nothing outside the view is touched
+            {
+                auto on_view = [&](const char* name, const Mat& In, const std::function<void(Eigen::Ref<Mat>)>& ap) {
+                    Mat plain = In;
+                    ap(plain);
+                    const T sentinel = T(99.5);
+                    Mat Big = Mat::Constant(In.rows() + 3, In.cols() + 2, sentinel);
+                    Big.block(1, 1, In.rows(), In.cols()) = In;
+                    ap(Big.block(1, 1, In.rows(), In.cols()));
+                    bool same = true, outside = true;
+                    for (int j = 0; j < Big.cols(); j++)
+                        for (int i = 0; i < Big.rows(); i++)
+                        {
+                            const bool inside = i >= 1 && i <= In.rows() && j >= 1 && j <= In.cols();
+                            if (inside) { if (!same_val(Big(i, j), plain(i - 1, j - 1))) same = false; }
+                            else if (!(Big(i, j) == sentinel)) outside = false;
+                        }
+                    if (!same) c.fail(std::string(name) + "(view)", "result on a block of a larger matrix differs from the result on a plain matrix");
+                    if (!outside) c.fail(std::string(name) + "(view)-outside", "entries outside the view were modified");
+                };
+                on_view("apply_QY", Y, [&](Eigen::Ref<Mat> M) { qr.apply_QY(M); });
+                on_view("apply_QtY", Y, [&](Eigen::Ref<Mat> M) { qr.apply_QtY(M); });
+                const Mat Yt = Y.transpose();
+                on_view("apply_YQ", Yt, [&](Eigen::Ref<Mat> M) { qr.apply_YQ(M); });
+                on_view("apply_YQt", Yt, [&](Eigen::Ref<Mat> M) { qr.apply_YQt(M); });
+            }
             // vacuity: which rotation branches did this input reach
             const LD cutoff = 0.1L * std::pow(u, 0.25L);
             for (int i = 0; i + 1 < n; i++)
@@ -169,6 +213,29 @@ struct QR
             VecL yl = toL(y);
             qr.apply_QtY(y);
             c.check("ds:apply_QtY(vec)", maxabs(toL(y) - Ql.transpose() * yl), 50 * n * u * yl.norm());
+            {
+                // output argument already holding other numbers; apply_YQ on a view into a larger matrix
+                Mat D2 = Mat::Constant(n, n, T(7.25));
+                qr.matrix_QtHQ(D2);
+                if (!same_mat(D2, D)) c.fail("ds:QtHQ-dest-prefilled", "matrix_QtHQ(dest) depends on what dest held before the call");
+                const Mat In = testmat(n).transpose();
+                Mat plain = In;
+                qr.apply_YQ(plain);
+                c.check("ds:apply_YQ(mat)", maxabs(toL(plain) - toL(In) * Ql), 50 * n * u * fro(toL(In)));
+                Mat Big = Mat::Constant(In.rows() + 3, In.cols() + 2, T(99.5));
+                Big.block(1, 1, In.rows(), In.cols()) = In;
+                qr.apply_YQ(Big.block(1, 1, In.rows(), In.cols()));
+                bool same = true, outside = true;
+                for (int j = 0; j < Big.cols(); j++)
+                    for (int i = 0; i < Big.rows(); i++)
+                    {
+                        const bool inside = i >= 1 && i <= In.rows() && j >= 1 && j <= In.cols();
+                        if (inside) { if (!same_val(Big(i, j), plain(i - 1, j - 1))) same = false; }
+                        else if (!(Big(i, j) == T(99.5))) outside = false;
+                    }
+                if (!same) c.fail("ds:apply_YQ(view)", "result on a block of a larger matrix differs from the result on a plain matrix");
+                if (!outside) c.fail("ds:apply_YQ(view)-outside", "entries outside the view were modified");
+            }
             for (int i = 0; i < n; i++) c.L.count(std::string("ds_reflector_nr") + char('0' + qr.m_ref_nr[i]));
         }
         catch (const std::exception& e)
